@@ -190,3 +190,77 @@ theorem blockVars_undefined_simple (m li lo di g n : List String) :
   exact this.2
 
 end Malt.Conv.BlockVars
+
+namespace Malt.Conv.BlockVars
+
+theorem mem_scopeVars (m li lo di g n : List String) (v : String) :
+    v ∈ (blockVars m li lo di g n).scopeVars ↔
+      v ∈ basicVars (dedup m) li lo (n ++ g) ∨ v ∈ compositeVars (dedup m) li := by
+  simp only [blockVars]
+  rw [(sortBy_perm _ _).mem_iff, List.mem_append]
+
+/-- Among the state variables, `inputOnly` are exactly the non-outputs. -/
+theorem inputOnly_iff (m li lo di g n : List String) (v : String) (hv : v ∈ (blockVars m li lo di g n).scopeVars) :
+    (blockVars m li lo di g n).inputOnly.contains v = !isOutput li lo v := by
+  rw [mem_scopeVars] at hv
+  simp only [blockVars]
+  rw [Bool.eq_iff_iff]
+  simp only [List.contains_eq_mem, decide_eq_true_eq, List.mem_filter, Bool.and_eq_true, Bool.not_eq_true', isOutput,
+    Bool.or_eq_false_iff, Bool.not_eq_false', decide_eq_false_iff_not]
+  constructor
+  · rintro ⟨hb, hin, hout⟩
+    have hs := (List.mem_filter.mp hb).2
+    simp only [Bool.and_eq_true, Bool.not_eq_true'] at hs
+    exact ⟨⟨hs.1, hin⟩, hout⟩
+  · rintro ⟨⟨hc, hin⟩, hout⟩
+    rcases hv with hb | hcomp
+    · exact ⟨hb, hin, hout⟩
+    · have := (List.mem_filter.mp hcomp).2
+      simp [hc] at this
+
+/-- Outputs first, exactly: position `i` of the state tuple is below `nouts` iff the variable there is an output. -/
+theorem blockVars_outputs_first (m li lo di g n : List String) (i : Nat) (v : String)
+    (hi : (blockVars m li lo di g n).scopeVars[i]? = some v) :
+    (i < (blockVars m li lo di g n).nouts ↔ isOutput li lo v = true) := by
+  obtain ⟨_, htake, hdrop⟩ := blockVars_nouts m li lo di g n
+  have hmem : v ∈ (blockVars m li lo di g n).scopeVars := List.mem_of_getElem? hi
+  have hio := inputOnly_iff m li lo di g n v hmem
+  constructor
+  · intro hlt
+    have hvt : v ∈ (blockVars m li lo di g n).scopeVars.take (blockVars m li lo di g n).nouts := by
+      apply List.mem_of_getElem? (i := i)
+      rw [List.getElem?_take]
+      simp [hlt, hi]
+    have := htake v hvt
+    rw [hio] at this
+    simpa using this
+  · intro hout
+    apply Decidable.byContradiction
+    intro hge
+    have hvd : v ∈ (blockVars m li lo di g n).scopeVars.drop (blockVars m li lo di g n).nouts := by
+      apply List.mem_of_getElem? (i := i - (blockVars m li lo di g n).nouts)
+      rw [List.getElem?_drop]
+      have : (blockVars m li lo di g n).nouts + (i - (blockVars m li lo di g n).nouts) = i := by omega
+      rw [this, hi]
+    have := hdrop v hvd
+    rw [hio, hout] at this
+    simp at this
+
+/-- A simple output that is neither live in nor live out is a name the enclosing function declares `global`/`nonlocal`. -/
+theorem output_not_live_is_outer (m li lo di g n : List String) (v : String)
+    (hv : v ∈ (blockVars m li lo di g n).scopeVars) (hs : isComposite v = false)
+    (hin : li.contains v = false) (hout : lo.contains v = false) : (n ++ g).contains v = true := by
+  rw [mem_scopeVars] at hv
+  rcases hv with hb | hc
+  · have := (List.mem_filter.mp hb).2
+    have hin' : v ∉ li := by simpa using hin
+    have hout' : v ∉ lo := by simpa using hout
+    simp only [hs, Bool.not_false, Bool.true_and, Bool.or_eq_true, List.contains_eq_mem, decide_eq_true_eq] at this
+    rcases this with (h | h) | h
+    · exact absurd h hin'
+    · exact absurd h hout'
+    · simpa using h
+  · have := (List.mem_filter.mp hc).2
+    simp [hs] at this
+
+end Malt.Conv.BlockVars
